@@ -519,6 +519,7 @@ func checkC13(c *run.Ctx) {
 		id := fmt.Sprintf("corpus/%d", i)
 		jr.write("corpus", id, string(b))
 		out, ok := c13Check(c, id, b, "corpus")
+		jr.done(id)
 		c.Eval(1)
 		if ok {
 			c.Count("outcome_"+out.class, 1)
@@ -532,6 +533,7 @@ func checkC13(c *run.Ctx) {
 			id := run.CaseID("mut", i)
 			jr.write(fmt.Sprint(i%64), id, string(b))
 			out, ok := c13Check(c, id, b, "corpus-mutation:"+kinds)
+			jr.done(id)
 			c.Eval(1)
 			if !ok {
 				return
@@ -555,6 +557,7 @@ func checkC13(c *run.Ctx) {
 			id := run.CaseID("te", i)
 			jr.write(fmt.Sprint(i%64), id, txt)
 			out, ok := c13Check(c, id, []byte(txt), "type-error:"+what)
+			jr.done(id)
 			c.Eval(1)
 			if !ok {
 				return
